@@ -1118,3 +1118,54 @@ def let_contract(kind, inner, dparam):
 LET_BOOL = let_contract('bool', COFACTOR_DEC, 'values')
 LET_INT = let_contract('int', COMPOSE_DEC, 'var_sub')
 LET_NAME = let_contract('name', RENAME_DEC, 'dvars')
+
+
+# ---------------------------------------------------------------------------------------------------------------
+# support (C10): pointwise in the arbitrary level HL (family HASLVL); "depends on the variable" is lemma L-ESS
+def supp_closed(S, nodes, levels, from_level):
+    """visited nodes at or below `from_level` are finished: whatever they reach at level HL is recorded"""
+    return ForAll([x_], Implies(And(nodes.has[x_], S.lvl[x_] >= from_level), And(S.dom[x_], x_ >= 1, Implies(S.hl[x_], levels.has[HL]))),
+                  patterns=[nodes.has[x_]])
+
+
+def in_range(S, levels):
+    return ForAll([l_], Implies(levels.has[l_], And(0 <= l_, l_ < S.nvars)), patterns=[levels.has[l_]])
+
+
+def _support_pre(c):
+    S, a = c.S, c.a
+    return wf(S, c.uses) + [('ref', isref(S, a.u)), ('levels-in-range', in_range(S, a.levels)),
+                            ('visited-closed', supp_closed(S, a.nodes, a.levels, lv(S, a.u)))]
+
+
+def _support_post(c):
+    S, a = c.S0, c.a
+    l0, l1 = c.muts['levels']
+    n0, n1 = c.muts['nodes']
+    return [('complete', Implies(S.hl[absz(a.u)], l1.has[HL])),
+            ('sound', Implies(l1.has[HL], Or(l0.has[HL], S.hl[absz(a.u)]))),
+            ('levels-grow', ForAll([l_], Implies(l0.has[l_], l1.has[l_]), patterns=[l0.has[l_]])),
+            ('levels-in-range', in_range(S, l1)),
+            ('visited-grow', ForAll([x_], Implies(n0.has[x_], n1.has[x_]), patterns=[n0.has[x_]])),
+            ('new-visited-closed', ForAll([x_], Implies(And(n1.has[x_], Not(n0.has[x_])),
+                                                        And(S.dom[x_], x_ >= 1, S.lvl[x_] >= lv(S, a.u), Implies(S.hl[x_], l1.has[HL]))),
+                                          patterns=[n1.has[x_]]))]
+
+
+reg(Contract('dd.bdd.BDD._support', [('self', 'mgr'), ('u', 'int'), ('levels', 'set:int'), ('nodes', 'set:int')],
+             pre=_support_pre, post=_support_post, ret='none', uses={'hl', 'order'}, mutates=['levels', 'nodes']))
+
+
+def support_post(c):
+    S, a, r = c.S0, c.a, c.r
+    if isinstance(r, SetV) and r.kkind == 'int':
+        return [('levels-of-the-support', r.has[HL] == S.hl[absz(a.u)])]
+    return [('variable-at-HL-in-support-iff-reachable', ForAll([n_], Implies(And(S.vin[n_], S.v2l[n_] == HL), r.has[n_] == S.hl[absz(a.u)]),
+                                                               patterns=[r.has[n_]])),
+            ('only-declared-names', ForAll([n_], Implies(r.has[n_], S.vin[n_]), patterns=[r.has[n_]]))]
+
+
+for _flag, _ret in ((False, 'set:name'), (True, 'set:int')):
+    reg(Contract('dd.bdd.BDD.support!proved:' + ('levels' if _flag else 'names'), [('self', 'mgr'), ('u', 'int'), ('as_levels', 'bool')],
+                 pre=lambda c, _f=_flag: wf(c.S, c.uses) + [('ref', isref(c.S, c.a.u)), ('as_levels', c.a.as_levels == BoolVal(_f))],
+                 post=support_post, ret=_ret, uses={'hl', 'order'}))
